@@ -33,6 +33,13 @@ func (g *rgen) balOf(a, d string) int64 {
 	return g.e.last["bal"].(chain.M)[a].(chain.M)[d].(int64)
 }
 
+func (g *rgen) deputyOf(d string) string {
+	if p, ok := g.e.last["params"].(chain.M)[d].(chain.M); ok {
+		return p["deputy"].(string)
+	}
+	return depName
+}
+
 func (g *rgen) lock() int64 {
 	switch x := g.rng.Intn(20); {
 	case x < 11:
@@ -73,6 +80,9 @@ func (g *rgen) create(nowTs int64) chain.M {
 		if g.rng.Intn(25) == 0 {
 			ev["to"] = blkName
 		}
+		if g.rng.Intn(25) == 0 {
+			ev["to"] = modName
+		}
 		amt := chain.M{}
 		amt[g.pick(e.plain)] = int64(1 + g.rng.Intn(2))
 		if g.rng.Intn(3) == 0 {
@@ -102,6 +112,9 @@ func (g *rgen) create(nowTs int64) chain.M {
 		}
 	case x < 15: // incoming transfer: deputy -> user
 		ev["who"], ev["to"] = depName, g.pick(e.users)
+		if dd := g.deputyOf(g.pick(e.assets)); dd != depName && g.rng.Intn(2) == 0 {
+			ev["who"] = dd // the deputy currently in force for some asset
+		}
 		if g.rng.Intn(20) == 0 {
 			ev["to"] = depName
 		}
@@ -134,6 +147,9 @@ func (g *rgen) create(nowTs int64) chain.M {
 					ev["who"], d = u, dd
 				}
 			}
+		}
+		if dd := g.deputyOf(d); dd != depName && g.rng.Intn(2) == 0 {
+			ev["to"] = dd
 		}
 		if g.rng.Intn(20) == 0 {
 			ev["to"] = g.pick(e.users)
@@ -214,7 +230,31 @@ func (g *rgen) paramsEvent() chain.M {
 		return chain.M{"limit": limit, "timeLimited": tl, "period": period, "tbl": tbl, "active": true,
 			"deputy": depName, "fee": fee, "minAmt": int64(1), "maxAmt": int64(3), "minLock": int64(50), "maxLock": int64(100)}
 	}
-	switch g.rng.Intn(9) {
+	switch g.rng.Intn(14) {
+	case 9: // swap range tightened to exactly 2 (transfers of 1 and 3 may be in flight)
+		for _, d := range g.e.assets {
+			if p, ok := ps[d].(chain.M); ok && g.rng.Intn(2) == 0 {
+				p["minAmt"], p["maxAmt"] = int64(2), int64(2)
+			}
+		}
+	case 10: // block-lock range tightened (outgoing transfers with lock 50 may be in flight)
+		for _, d := range g.e.assets {
+			if p, ok := ps[d].(chain.M); ok {
+				p["minLock"], p["maxLock"] = int64(51), int64(51+g.rng.Intn(2))
+			}
+		}
+	case 11: // fee raised on the first asset: outgoing amounts must be >= fee + minimum
+		if p, ok := ps["htltone"].(chain.M); ok {
+			p["fee"] = int64(1 + g.rng.Intn(2))
+		}
+	case 12: // deputy of the first asset changes to a user
+		if p, ok := ps["htltone"].(chain.M); ok {
+			p["deputy"] = g.e.users[0]
+		}
+	case 13: // the first asset switched off / on again
+		if p, ok := ps["htltone"].(chain.M); ok {
+			p["active"] = !p["active"].(bool)
+		}
 	case 0: // lower the first asset's limit (possibly below current + incoming)
 		ps["htltone"] = base("htltone", int64(1+g.rng.Intn(3)), false, 0, 0, 0)
 	case 1: // remove an asset while transfers may be in flight
@@ -248,9 +288,10 @@ func htlcRandom(fl *drv.Flags, rng *rand.Rand, w *chain.TraceWriter) {
 	e.start(w)
 	g := &rgen{e: e, rng: rng}
 	noParams := fl.CfgInt("noparams", 0) == 1
+	flood := fl.CfgInt("flood", 0)
 	for r := 0; r < fl.Len && !e.dead; r++ {
 		h := e.c.Height
-		dts := []int64{1, 1, 2, 5, 10, 30, 60}
+		dts := []int64{1, 1, 2, 5, 10, 30, 60, 0, 0, 500, 5000}
 		dt := dts[rng.Intn(len(dts))]
 		nowTs := e.c.Time.Unix() + dt - e.t0.Unix() + tsOff
 		var pending []chain.M
@@ -275,6 +316,36 @@ func htlcRandom(fl *drv.Flags, rng *rand.Rand, w *chain.TraceWriter) {
 			if n > 0 {
 				e.skip(n, []int64{1, 1, 2, 3}[rng.Intn(4)], w)
 			}
+			continue
+		}
+		if flood > 0 && r%9 == 1 {
+			// dozens of contracts in one block, all expiring at one height (C13)
+			n := int(flood) + rng.Intn(int(flood)/2+1)
+			for k := 0; k < n; k++ {
+				c := htlcEvent("Create")
+				g.seq++
+				c["id"] = fmt.Sprintf("r%d", g.seq)
+				c["who"], c["to"] = e.users[k%len(e.users)], g.pick(append(append([]string{}, e.users...), depName))
+				c["amt"] = chain.M{e.plain[k%len(e.plain)]: int64(1)}
+				c["sec"] = fmt.Sprintf("f%d", g.seq)
+				if k%3 == 0 {
+					c["lts"], c["ts"] = nowTs, nowTs
+				}
+				c["lock"] = int64(50)
+				if k%7 == 6 { // a few incoming transfers among them
+					c["who"], c["to"] = g.deputyOf("htltone"), e.users[k%len(e.users)]
+					c["amt"] = chain.M{"htltone": int64(1)}
+					c["lts"], c["ts"], c["transfer"] = nowTs, nowTs, true
+				}
+				pending = append(pending, c)
+			}
+			for k := 0; k < 3 && k < len(pending); k++ { // some are claimed at once
+				p := pending[rng.Intn(len(pending))]
+				cl := htlcEvent("Claim")
+				cl["who"], cl["id"], cl["sec"] = g.pick(e.signers()), p["id"], p["sec"]
+				pending = append(pending, cl)
+			}
+			e.runBlock(dt, pending, w)
 			continue
 		}
 		// claims around the expiry boundary
